@@ -223,3 +223,4 @@ def check(ctx):
     ctx.cfg = "bin@default"
     bin_ = ctx.load(facts.Config("bin"))
     P_cli(ctx, bin_)
+    C08.F_input(ctx, bin_, "bin", 3)   # a transformation of the text before parsing (e.g. stripping whitespace) is a non-injective renaming of quoted labels
